@@ -89,7 +89,7 @@ func (p *Program) skipInit(path string) bool {
 	case "runtime", "os", "syscall", "internal/poll", "internal/cpu", "internal/godebug", "internal/syscall/unix",
 		"os/signal", "net", "crypto/rand", "log", "internal/testlog", "internal/oserror", "time", "reflect",
 		"internal/reflectlite", "sync", "sync/atomic", "runtime/debug", "internal/bisect", "log/slog", "math/rand",
-		"math/rand/v2", "errors", "fmt", "internal/abi", "internal/goarch", "os/exec", "os/user", "testing", "flag":
+		"math/rand/v2", "errors", "fmt", "internal/abi", "internal/goarch", "os/exec", "os/user", "testing", "flag", "encoding/gob", "crypto/sha256", "crypto":
 		return true
 	}
 	return false
